@@ -67,7 +67,9 @@ def cases(draw, tier="quick"):
                 "margin": draw(st.sampled_from([1e-1, 1e-2, 1e-4])), "seed": draw(st.integers(0, 10 ** 6)),
                 "randomize_action_order": True}
     return {"mdp": spec, "heuristic": draw(heuristic_specs(spec["n"])),
-            "margin": draw(st.sampled_from([1e-1, 1e-2, 1e-4])),
+            # (margin 0 - "solve exactly" - is legitimate; on cyclic stochastic problems the residual may never reach
+            # exactly 0 in floating point, those runs end at the step budget and are counted as inconclusive)
+            "margin": draw(st.sampled_from([1e-1, 1e-2, 1e-2, 1e-4, 1e-4, 1e-9, 0])),
             "seed": draw(st.one_of(st.sampled_from([0, 1, 2 ** 31 - 1]), st.integers(0, 10 ** 6))),
             "randomize_action_order": draw(st.booleans())}
 
